@@ -96,6 +96,7 @@ package clos
 // library sort and is not verified here), and then every one of them is merged.
 //@ func clos.classChanged
 //@   property C12
-//@   count-calls SliceStable
+//@   count-calls SliceStable ClassesChanged
+//@   on-call SliceStable dispatch-caches-are-told: $ncall_ClassesChanged == 1
 //@   on-call mergeSupers ordered-before-merging: $ncall_SliceStable == 1
 //@   full-loop rangeindex+1<len(subs)
